@@ -434,7 +434,14 @@ func (c *fnCtx) applyContract(st *State, ci calleeInfo, args []SymVal, rt types.
 		if err != nil {
 			c.abort("%s: requires of %s at call: %v", r.Pos, ci.key, err)
 		}
-		c.oblige(st, "pre:"+short, t, r.Text, c.propsFor(r.Props), pos)
+		props := r.Props
+		if len(props) == 0 {
+			props = con.Props // a precondition belongs to the properties of the callee's contract
+		}
+		if len(props) == 0 {
+			props = c.propsFor(nil)
+		}
+		c.oblige(st, "pre:"+short, t, r.Text, props, pos)
 	}
 	// havoc
 	if !con.HasMod {
